@@ -557,13 +557,26 @@ def run_uniform(ctx, hook):
                                     key = axk if spelling == 'nonnegative-keys' else axk - nd
                                     for which in ('min_pt', 'max_pt'):
                                         lim = float(mn[axk]) if which == 'min_pt' else float(mx[axk])
-                                        gd = odl.uniform_partition_fromgrid(p.grid, **{which: {key: lim}})
+                                        given = {key: lim}
+                                        gd = odl.uniform_partition_fromgrid(p.grid, **{which: given})
+                                        if given != {key: lim}:
+                                            ctx.violation('uniform_partition_fromgrid', '%s;dict;%s' % (lname, spelling), 'caller-argument-modified', after=str(given))
                                         got = gd.min_pt[axk] if which == 'min_pt' else gd.max_pt[axk]
                                         if got != lim:
                                             ctx.violation('uniform_partition_fromgrid', '%s;dict;%s' % (lname, spelling), 'requested-limit-not-used', which=which, got=float(got), want=lim)
                                         tiling(ctx, gd, 'fromgrid-dict')
                                 g2 = odl.uniform_partition_fromgrid(p.grid)
                                 tiling(ctx, g2, 'fromgrid-default')
+                                if nd >= 2:
+                                    # a limit vector shorter than the number of axes describes no interval: refused, never completed
+                                    for which in ('min_pt', 'max_pt'):
+                                        short = (np.asarray(mn)[:nd - 1] if which == 'min_pt' else np.asarray(mx)[:nd - 1])
+                                        for arg in (short.tolist(), float(short[0]) if nd == 2 else short):
+                                            try:
+                                                bad = odl.uniform_partition_fromgrid(p.grid, **{which: arg})
+                                                ctx.violation('uniform_partition_fromgrid', lname + ';limit-vector-too-short', 'bad-input-accepted', got=util.srepr(bad, 120))
+                                            except (ValueError, TypeError, IndexError):
+                                                pass
                                 for ax in range(nd):
                                     h = p.grid.stride[ax]
                                     if not (np.isclose(g2.min_pt[ax], p.grid.min_pt[ax] - h / 2, rtol=1e-9, atol=1e-12) and
